@@ -76,6 +76,14 @@ def sub_hash(*subs):
     return h.hexdigest()[:10]
 
 
+class ExtractionFailed(Exception):
+    """the analysed program (the repository, or a harness crate of /verif compiled against it) does not build"""
+
+    def __init__(self, ws, args, errors):
+        self.ws, self.args, self.errors = ws, args, errors
+        Exception.__init__(self, "does not compile: %s %s\n%s" % (ws, " ".join(args), errors))
+
+
 class Analysis:
     def __init__(self, tier="quick"):
         self.tier = tier
@@ -124,9 +132,15 @@ class Analysis:
             lock.close()
 
     def _extract(self, ws, out, args):
-        r = subprocess.run([os.path.join(VERIF, "engine", "extract.sh"), ws, out] + args)
+        r = subprocess.run([os.path.join(VERIF, "engine", "extract.sh"), ws, out] + args, capture_output=True, text=True)
         if r.returncode != 0:
-            raise SystemExit("fact extraction failed for %s %s (see %s/cargo.log)" % (ws, args, out))
+            log = ""
+            try:
+                log = open(os.path.join(out, "cargo.log")).read()
+            except OSError:
+                log = (r.stdout or "") + (r.stderr or "")
+            errs = [ln for ln in log.splitlines() if ln.startswith(("error", "  -->", "   -->"))][:12]
+            raise ExtractionFailed(ws, args, "\n".join(errs) or log[-1500:])
 
     def facts_dir(self, features="default"):
         if features == "default":
